@@ -75,6 +75,7 @@ type Oblig struct {
 	Cover  bool // cover query: expected sat
 	Auto   bool // Houdini candidate (failure drops the candidate, is not reported)
 	AutoID string
+	Ranges [][2]int // slices of the script this obligation may depend on (nil = all of it)
 }
 
 // address of a memory location (never an SMT value)
@@ -132,6 +133,8 @@ type Gen struct {
 	ifaceUse   map[string]bool
 	heapRead   map[string]bool
 	constMapsUsed map[string]bool
+	postStart     int // > 0 while the return sites are being processed: script length when that began
+	retCut        int // script length at the return site being processed
 }
 
 func (g *Gen) newHV(name, so, term string, kind int, parents ...*HV) *HV {
@@ -382,13 +385,17 @@ func (g *Gen) instFrames(hv *HV, r string) {
 		switch h.kind {
 		case hvFrame:
 			key := fmt.Sprintf("%d@%s", h.id, r)
-			if !g.frameI[key] {
+			if g.frameI[key] {
+				g.s.hit("fr|" + key)
+			} else {
 				g.frameI[key] = true
+				fstart := len(g.s.lines)
 				conds := []string{"(<= " + r + " " + h.frontier + ")"}
 				for _, e := range h.except {
 					conds = append(conds, not(eq(r, e)))
 				}
 				g.s.assumeUnder(h.guard, imp(and(conds...), eq(app("select", h.term, r), app("select", h.parents[0].term, r))))
+				g.s.rec("fr|"+key, fstart)
 			}
 			walk(h.parents[0])
 		case hvStore, hvMerge:
